@@ -180,7 +180,12 @@ def shard(seed: int, shard_i: int, n: int, opts: dict) -> dict:
             skipped["undescribable"] += 1
             continue
         if str_keys_collide(r):
+            # finding D27: entries are labelled str(key), so failing keys with one str() form share an entry; reported
+            # (as the known finding) rather than left out; the model comparison below assumes distinct labels
             skipped["str-key-collision"] += 1
+            failures.append({"property": "C12", "case": c, "xd": invd, "real": None,
+                             "what": "failing keys with the same str() form are rendered as one entry, not one entry per "
+                                     "failing key [explained-by:D27]"})
             continue
         evaluated += 1
         ups = user_pids(c["v"], c["env"])
